@@ -31,6 +31,13 @@ def _label(style: str, kind: str, idx: int, salt: str) -> str:
     raise ValueError(style)
 
 
+# labels that look like names the library generates for itself or uses as sentinels (a legal label is any string)
+SPECIAL_LABELS = ['_PLACEHOLDER_STR_', '_PLACEHOLDER_STR_', 'inf_label', 'big_or', 'big_or', 'circuit1', 'circuit2', 'pairwise_xor',
+                  'circuit1@0', 'circuit2@g1', 'circuit2@x0', 'pairwise_xor@xor_0', 'xor_0', 'not_g1', 'not_x0', 'not_0', 's2', 's3',
+                  'x_0', 'z_0', 'new_gate_LT_for_g1', 'new_0', 'N@g1', 'B@x0', 'sub0@g1',
+                  'block_for_deleting', '@', 'g1@', '0', '1']
+
+
 @st.composite
 def label_list(draw, n_in: int, n_g: int, styles=('plain', 'digits', 'mixed')):
     """n_in + n_g pairwise distinct labels; returns (style, labels)."""
@@ -51,6 +58,8 @@ def label_list(draw, n_in: int, n_g: int, styles=('plain', 'digits', 'mixed')):
         else:
             salt = ''
         lab = _label(style, kind, k, salt)
+        if style == 'mixed' and draw(st.integers(0, 5)) == 0:
+            lab = draw(st.sampled_from(SPECIAL_LABELS))
         if lab in used:
             lab = f'{lab}_u{k}'
         used.add(lab)
